@@ -949,6 +949,14 @@ class Engine:
                     if force_complete:
                         # force the process to complete at end_time
                         future = min(process_time + process_timestep, end_time)
+                        if process_time + process_timestep > end_time:
+                            # the interval is cut short: hand the process
+                            # the length of the interval it will cover
+                            process_timestep = end_time - process_time
+                            if self.global_time_precision is not None:
+                                process_timestep = round(
+                                    process_timestep,
+                                    self.global_time_precision)
                     else:
                         future = process_time + process_timestep
                     if self.global_time_precision is not None:
